@@ -1147,8 +1147,9 @@ impl ConfigState {
         Ok(())
     }
 
+    /// - calculate the new fingerprint and resolve the names of the new
+    ///   certificate, as `add_certificate` does, before anything is changed
     /// - Remove old certificate from certificates, using the old fingerprint
-    /// - calculate the new fingerprint
     /// - insert the new certificate with the new fingerprint as key
     /// - check that the new entry is present in the certificates hashmap
     fn replace_certificate(&mut self, replace: &ReplaceCertificate) -> Result<(), StateError> {
@@ -1158,13 +1159,12 @@ impl ConfigState {
                 .map_err(|decode_error| StateError::RemoveCertificate(decode_error.to_string()))?,
         );
 
-        self.certificates
-            .get_mut(&replace_address)
-            .ok_or(StateError::NotFound {
+        if !self.certificates.contains_key(&replace_address) {
+            return Err(StateError::NotFound {
                 kind: ObjectKind::Certificate,
                 id: replace.address.to_string(),
-            })?
-            .remove(&old_fingerprint);
+            });
+        }
 
         let new_fingerprint = Fingerprint(
             calculate_fingerprint(replace.new_certificate.certificate.as_bytes()).map_err(
@@ -1172,9 +1172,17 @@ impl ConfigState {
             )?,
         );
 
-        self.certificates
-            .get_mut(&replace_address)
-            .map(|certs| certs.insert(new_fingerprint.clone(), replace.new_certificate.clone()));
+        // the stored entry must be the one its own replay (AddCertificate) stores
+        let mut new_certificate = replace.new_certificate.clone();
+        new_certificate
+            .apply_overriding_names()
+            .map_err(|names_err| StateError::ReplaceCertificate(names_err.to_string()))?;
+
+        // the new certificate is valid: only now may the old one go
+        if let Some(certs) = self.certificates.get_mut(&replace_address) {
+            certs.remove(&old_fingerprint);
+            certs.insert(new_fingerprint.clone(), new_certificate);
+        }
 
         if !self
             .certificates
